@@ -231,10 +231,15 @@ def clear : PFields → Nat → PFields
 
 end PFields
 
-/-- `HashMap::insert` -/
-def PMap.set : PMap → MapKey → PValue → PMap
-  | .nil, k, v => .cons k v .nil
-  | .cons l w rest, k, v => if l = k then .cons l v rest else .cons l w (rest.set k v)
+def PMap.has : PMap → MapKey → Bool
+  | .nil, _ => false
+  | .cons l _ rest, k => l == k || rest.has k
+
+/-- add an entry unless the key is already there -/
+def PMap.setNew (es : PMap) (k : MapKey) (v : PValue) : PMap := if es.has k then es else .cons k v es
+
+/-- `BTreeMap`: add an entry unless the key is already there -/
+def insertNew (m : VMap) (k : List Nat) (x : Value) : VMap := if (m.get k).isSome then m else m.insert k x
 
 def PList.isEmpty : PList → Bool
   | .nil => true
@@ -400,7 +405,7 @@ mutual
   def convField (P : Prims) (lossy : Bool) (pool : Pool) : Field → Value → Option PValue
     | ⟨_, _, k, .repeated⟩, .arr a => (convList P lossy pool a k).map .list
     | ⟨_, _, _, _⟩, .arr _ => none
-    | ⟨_, _, k, .map ks⟩, .obj m => (convEntries P lossy pool m ks k .nil).map .map
+    | ⟨_, _, k, .map ks⟩, .obj m => (convEntries P lossy pool m ks k).map .map
     | ⟨_, _, _, .map _⟩, _ => none
     | ⟨_, _, .message r, _⟩, .obj m =>
       match pool.msg r with
@@ -425,13 +430,15 @@ mutual
       | some pv, some pvs => some (.cons pv pvs)
       | _, _ => none
   /-- the map-entry branch of `convert_value_raw`: every key through `parse_map_key`, every value
-      through `convert_value(value_field, …)`, collected into a `HashMap`. -/
-  def convEntries (P : Prims) (lossy : Bool) (pool : Pool) : VMap → Scalar → Kind → PMap → Option PMap
-    | .nil, _, _, acc => some acc
-    | .cons k x rest, ks, vk, acc =>
-      match parseMapKey ks k, convField P lossy pool (Field.plain vk) x with
-      | some mk, some pv => convEntries P lossy pool rest ks vk (acc.set mk pv)
-      | _, _ => none
+      through `convert_value(value_field, …)`, collected into a `HashMap` with `insert` in the order
+      of the object's keys — written as a fold from the right: an entry is added unless a later
+      entry produced the same map key (`insert` lets the later one win). -/
+  def convEntries (P : Prims) (lossy : Bool) (pool : Pool) : VMap → Scalar → Kind → Option PMap
+    | .nil, _, _ => some .nil
+    | .cons k x rest, ks, vk =>
+      match parseMapKey ks k, convField P lossy pool (Field.plain vk) x, convEntries P lossy pool rest ks vk with
+      | some mk, some pv, some es => some (es.setNew mk pv)
+      | _, _, _ => none
   /-- `match map.get(field_name) { None | Some(Null) => clear, Some(v) => convert_value(field, v) }` -/
   def convLookup (P : Prims) (lossy : Bool) (pool : Pool) : VMap → Field → Option (Option PValue)
     | .nil, _ => some none
@@ -514,7 +521,7 @@ mutual
       | some md => (collectFields (fun f => toValueLookup pool fs f) md.fields .nil).map .obj
       | none => none
     | ctx, .list xs => (toValueList pool ctx xs).map .arr
-    | some f, .map es => if f.isMap then (toValueEntries pool f.entryValue es .nil).map .obj else none
+    | some f, .map es => if f.isMap then (toValueEntries pool f.entryValue es).map .obj else none
     | none, .map _ => none
   def toValueList (pool : Pool) : Option Field → PList → Option VList
     | _, .nil => some .nil
@@ -522,12 +529,15 @@ mutual
       match toValue pool ctx v, toValueList pool ctx vs with
       | some x, some xs => some (.cons x xs)
       | _, _ => none
-  def toValueEntries (pool : Pool) : Field → PMap → VMap → Option VMap
-    | _, .nil, acc => some acc
-    | vf, .cons k v rest, acc =>
-      match toValue pool (some vf) v with
-      | some x => toValueEntries pool vf rest (acc.insert (showMapKey k) x)
-      | none => none
+  /-- `v.iter().map(|(k, v)| (k.to_string(), proto_to_value(v, value_field))).collect::<ObjectMap>()`
+      as a fold from the right (`collect` lets the later of two equal keys win; the iteration order
+      of the `HashMap` is arbitrary, so only maps whose keys print differently are meaningful). -/
+  def toValueEntries (pool : Pool) : Field → PMap → Option VMap
+    | _, .nil => some .nil
+    | vf, .cons k v rest =>
+      match toValue pool (some vf) v, toValueEntries pool vf rest with
+      | some x, some obj => some (insertNew obj (showMapKey k) x)
+      | _, _ => none
   /-- `if v.has_field(f) { proto_to_value(v.get_field(f), Some(f)) }` -/
   def toValueLookup (pool : Pool) : PFields → Field → Option (Option Value)
     | .nil, _ => some none
